@@ -30,7 +30,7 @@ RULE = ("histories: lattice family (11 kinds, optionally rotated in space) + 0-3
         "compatible with the group, NKFFT in [1..3]^3, optional non-periodic 3rd direction, initial list with/without "
         "symmetry, 0-8 refinement steps {1-3 picked points (alive, or any incl. dead), mesh 2|3|4|[a,b,c] (constant or "
         "changing between steps), use_symmetry}; tetra: default 5-tetra cell / trigonal wedge / subsets of the Kuhn and "
-        "5-tetra tilings with permuted vertices and optional weights, split thresholds from a target count, 0-6 divides "
+        "5-tetra tilings with permuted vertices and optional weights, right- and left-handed cells, split thresholds from a target count, 0-6 divides "
         "with ndiv 2..4; non-trivial(grid) = (group order>1 and >=1 merge happened) or >=2 refinement steps; "
         "non-trivial(tetra) = >=1 split at construction or >=1 divide; run: real run() with 1-3 refinements, then a restart from the "
         "last or an earlier iteration (1-2 more refinements) and optionally a second restart, both storage modes, with/without "
@@ -606,6 +606,9 @@ _tdiv = st.fixed_dictionaries(dict(pick=_pick, ndiv=st.sampled_from([2, 2, 3, 4]
                                    include_dead=st.sampled_from([False, False, False, True])))
 
 
+MAX_BISECTIONS = 40000
+
+
 @st.composite
 def tetra_case_st(draw):
     start = draw(st.sampled_from(["default", "default", "trigonal", "kuhn", "five"]))
@@ -617,7 +620,9 @@ def tetra_case_st(draw):
     d = dict(lat=lat, start=start, NKFFT=draw(st.lists(st.integers(1, 3), min_size=3, max_size=3)),
              target=draw(st.one_of(fl(0.2, 60.0), fl(5.0, 300.0))), by_volume=draw(st.booleans()), by_size=draw(st.sampled_from([False, False, True])),
              size_factor=draw(st.sampled_from([None, 0.25, 0.4])),
-             divides=draw(st.lists(_tdiv, min_size=0, max_size=6)), rs=draw(st.integers(0, 2 ** 32)))
+             divides=draw(st.lists(_tdiv, min_size=0, max_size=6)), rs=draw(st.integers(0, 2 ** 32)),
+             # left-handed cell (third lattice vector reversed): nothing in the documentation restricts the handedness
+             mirror=(start != "trigonal") and draw(st.sampled_from([False, False, True])))
     if start in ("kuhn", "five"):
         n = 6 if start == "kuhn" else 5
         d["subset"] = draw(st.lists(st.integers(0, n - 1), min_size=1, max_size=n, unique=True))
@@ -737,6 +742,8 @@ def check_tetra_divide(parent_V, parent_f, children, ndiv, rng):
 def check_tetra(case):
     from wannierberri.grid import GridTetra, GridTrigonal
     L = wbsys.lattice_matrix(case["lat"])
+    if case.get("mirror"):
+        L[2] = -L[2]
     B = 2 * np.pi * np.linalg.inv(L).T
     model = wbsys.Model(L, [[0.0, 0.0, 0.0]], [[0, 0, 0]], {"Ham": np.zeros((1, 1, 1), dtype=complex)})
     system = wbsys.to_system(model)
@@ -765,19 +772,41 @@ def check_tetra(case):
             r = np.log2(v0 / vmax)
             if r > -1 and abs(r - np.rint(r)) < 1e-8:
                 raise Inconclusive("volume threshold tie")
-    if np.linalg.det(Bred) <= 0:
-        raise RuntimeError("harness: left-handed lattice would make vmax negative (GridTetra then never terminates)")
-    if start == "default":
-        grid = GridTetra(system, length, **kw)
-        T0 = np.array(FIVE, dtype=float) - 0.5
-    elif start == "trigonal":
-        grid = GridTrigonal(system, length, **kw)
-        T0 = None
-    else:
-        base = np.array(KUHN6 if start == "kuhn" else FIVE, dtype=float)
-        T0 = base[case["subset"]][:, case["perm"], :] + case["shift"]
-        weights = case.get("weights")
-        grid = GridTetra(system, length, IBZ_tetra=T0.copy(), weights=None if weights is None else list(weights), **kw)
+    # construction must terminate: every bisection halves a volume, so the number of divide() calls is bounded by the
+    # number of tetrahedra that can exist above the thresholds; a construction that exceeds a bound three orders of
+    # magnitude above anything the generator asks for is reported as non-terminating (deterministic, no wall clock)
+    from wannierberri.grid.Kpoint_tetra import KpointBZtetra
+    orig_divide = KpointBZtetra.divide
+    ncalls = [0]
+
+    class _Runaway(BaseException):
+        pass
+
+    def counted_divide(self, *a, **k):
+        ncalls[0] += 1
+        if ncalls[0] > MAX_BISECTIONS:
+            raise _Runaway()
+        return orig_divide(self, *a, **k)
+
+    KpointBZtetra.divide = counted_divide
+    try:
+        if start == "default":
+            grid = GridTetra(system, length, **kw)
+            T0 = np.array(FIVE, dtype=float) - 0.5
+        elif start == "trigonal":
+            grid = GridTrigonal(system, length, **kw)
+            T0 = None
+        else:
+            base = np.array(KUHN6 if start == "kuhn" else FIVE, dtype=float)
+            T0 = base[case["subset"]][:, case["perm"], :] + case["shift"]
+            weights = case.get("weights")
+            grid = GridTetra(system, length, IBZ_tetra=T0.copy(), weights=None if weights is None else list(weights), **kw)
+    except _Runaway:
+        raise Violation("tetra:construction-does-not-terminate",
+                        f"more than {MAX_BISECTIONS} bisections while building the grid (target {case['target']:.1f} tetrahedra, "
+                        f"det(lattice)={np.linalg.det(L):.3f}, start={start})")
+    finally:
+        KpointBZtetra.divide = orig_divide
     K_list = grid.get_K_list()
     snapshot0 = [(np.array(K.K, copy=True), np.array(K.vertices, copy=True), float(K.factor), int(K.refinement_level))
                  for K in K_list]
@@ -865,6 +894,7 @@ def check_tetra(case):
                                                    f"{ndiv_done} divisions: factor {K.factor} vs {f0}")
     return ok(n_start > len(T0) or ndiv_done > 0, start, case["lat"]["kind"], f"start-count<={10 ** len(str(n_start))}",
               f"divides={ndiv_done}", "split-at-construction" if n_start > len(T0) else None,
+              "left-handed" if case.get("mirror") else None, f"bisections<=10^{len(str(ncalls[0]))}",
               "weights-given" if weights is not None else None, "by_volume" if case["by_volume"] else None,
               "by_size" if case["by_size"] else None, "probe-on-face" if amb else None,
               "subset" if start in ("kuhn", "five") and len(case["subset"]) < (6 if start == "kuhn" else 5) else None)
